@@ -361,44 +361,55 @@ func (w *World) EnumPaths(fn *ssa.Function, o EnumOpts) EnumResult {
 			return
 		}
 		visits := f.onPath[b.Index]
+		edgePhis := func() {
+			if prev == nil || len(res.Paths) == 0 {
+				return
+			}
+			last := res.Paths[len(res.Paths)-1]
+			last.BackPhi = map[string]string{}
+			pi := -1
+			for i, p := range b.Preds {
+				if p == prev {
+					pi = i
+				}
+			}
+			w.phiEnv, w.memEnv = f.phi, f.mem
+			for _, in := range b.Instrs {
+				ph, ok := in.(*ssa.Phi)
+				if !ok {
+					break
+				}
+				if pi >= 0 {
+					v := ph.Edges[pi]
+					name := ph.Comment
+					if name == "" {
+						name = ph.Name()
+					}
+					if v == ssa.Value(ph) {
+						last.BackPhi[name] = "<unchanged>"
+					} else if r, ok := f.phi[ph]; ok && w.Resolve(v) == r {
+						last.BackPhi[name] = "<unchanged>"
+					} else {
+						last.BackPhi[name] = w.AP(v)
+					}
+				}
+			}
+			w.phiEnv, w.memEnv = nil, nil
+		}
 		if visits >= 2 || (visits == 1 && (b == start || o.NoLoopExit)) {
+			n0 := len(res.Paths)
 			finish(f, fmt.Sprintf("backedge:%d", b.Index), nil)
-			if prev != nil && len(res.Paths) > 0 {
-				last := res.Paths[len(res.Paths)-1]
-				last.BackPhi = map[string]string{}
-				pi := -1
-				for i, p := range b.Preds {
-					if p == prev {
-						pi = i
-					}
-				}
-				w.phiEnv, w.memEnv = f.phi, f.mem
-				for _, in := range b.Instrs {
-					ph, ok := in.(*ssa.Phi)
-					if !ok {
-						break
-					}
-					if pi >= 0 {
-						v := ph.Edges[pi]
-						name := ph.Comment
-						if name == "" {
-							name = ph.Name()
-						}
-						if v == ssa.Value(ph) {
-							last.BackPhi[name] = "<unchanged>"
-						} else if r, ok := f.phi[ph]; ok && w.Resolve(v) == r {
-							last.BackPhi[name] = "<unchanged>"
-						} else {
-							last.BackPhi[name] = w.AP(v)
-						}
-					}
-				}
-				w.phiEnv, w.memEnv = nil, nil
+			if len(res.Paths) > n0 {
+				edgePhis()
 			}
 			return
 		}
 		if o.StopBlock != nil && b != start && o.StopBlock(b) {
+			n0 := len(res.Paths)
 			finish(f, fmt.Sprintf("stop:%d", b.Index), nil)
+			if len(res.Paths) > n0 {
+				edgePhis()
+			}
 			return
 		}
 		exiting := visits == 1
